@@ -50,6 +50,26 @@ Proof.
   - discriminate.
 Qed.
 
+(* Every operation on a wrapped generator object - resume, close, throw, drop, whatever state
+   the object is in (never started, suspended, exhausted) - contributes a MATCHED stretch of
+   by-count operations: the forwarded close()/throw() turn runs between one
+   enable_by_count()/disable_by_count() pair like an ordinary resume. *)
+Theorem generator_ops_matched t o st :
+  is_gen_op o = true -> matched (map snd (prims_of (fst (obj_expand t o st)))) = true.
+Proof. destruct o, st; intros H; try discriminate H; reflexivity. Qed.
+
+(* ... so by C05_matched_restores they leave count, trace slot and tool as found.  A step of a
+   wrapped coroutine / async generator that is suspended half-way holds one entry until it is
+   resumed, closed, thrown into or dropped; begin and end together are matched. *)
+Theorem suspended_steps_matched t :
+  matched (map snd (prims_of (fst (obj_expand t CoStart SEmpty) ++ fst (obj_expand t CoClose SCo)))) = true
+  /\ matched (map snd (prims_of (fst (obj_expand t CoStart SEmpty) ++ fst (obj_expand t CoResume SCo)))) = true
+  /\ matched (map snd (prims_of (fst (obj_expand t AgStart SEmpty) ++ fst (obj_expand t AgClose SAgMid)))) = true
+  /\ matched (map snd (prims_of (fst (obj_expand t AgStart SEmpty) ++ fst (obj_expand t AgResume SAgMid)))) = true
+  /\ matched (map snd (prims_of (fst (obj_expand t AgClose SAgYield)))) = true
+  /\ matched (map snd (prims_of (fst (obj_expand t AgResume SAgYield)))) = true.
+Proof. repeat split. Qed.
+
 (* ---- the translated LineProfiler methods meet the literal per-thread reading --------- *)
 Lemma lp_obs_eq n w f t :
   inv LP w -> (forall x, w_count w x = f x) ->
